@@ -3,6 +3,7 @@
 // compared with a fresh network built from the same document and asked only that.
 #include "engines/hist_net.h"
 #include "engines/gama_net.h"
+#include "engines/io_events.h"
 
 using namespace sim;
 using GNU_gama::local::LocalNetwork;
@@ -17,7 +18,12 @@ static const char* ALGS[] = {"envelope", "cholesky", "gso", "svd"};
 void init()
 {
   GNU_gama::local::set_gama_language(GNU_gama::local::en);
-  if (g_docs.empty()) g_docs = gnet::load_dir(gnet::corpus_root() + "/gkf", ".gkf", 4500);
+  if (g_docs.empty()) {
+    g_docs = gnet::load_dir(gnet::corpus_root() + "/gkf", ".gkf", 4500);
+    // plus 24 grammar-derived networks (3D, points without given coordinates, constrained points, vectors,
+    // levelling), the same for every process: they are built from a fixed generator
+    if (!g_docs.empty()) for (int k = 0; k < 24; k++) { sim::Rng g(0x5eedULL * 1000003ULL + (uint64_t)k); gnet::Doc d; d.name = fmt("synthetic-gkf-%02d", k); d.bytes = ioev::tidy_network(g); g_docs.push_back(d); }
+  }
 }
 bool available() { return !g_docs.empty(); }
 
